@@ -28,6 +28,12 @@ func (o sxOp) String() string {
 	return fmt.Sprintf("%s%v", o.Name, o.Args)
 }
 
+// sxTagger is optionally implemented by systems that can classify the state
+// in which a disagreement happened (used to attach failures to findings).
+type sxTagger interface {
+	FailTag() string
+}
+
 type sxSys interface {
 	// Ops returns the operations enabled in the current state.
 	Ops() []sxOp
@@ -108,10 +114,14 @@ func sxBFS(c *RunCtx, spec *sxSpec) {
 				c.Sum.Validated++
 				if msg != "" {
 					c.Outcome("mismatch")
-					if failsHere < 8 {
+					if failsHere < 200000 {
 						failsHere++
 						h := append(append([]sxOp{}, hist...), op)
-						c.Fail(spec.Name+"/"+op.Name, "mismatch", sxCase{spec.Name, h}, msg)
+						group := spec.Name + "/" + op.Name
+						if tg, ok := s.(sxTagger); ok {
+							group += "/" + tg.FailTag()
+						}
+						c.Fail(group, "mismatch", sxCase{spec.Name, h}, msg)
 					}
 					continue // do not explore beyond a disagreement
 				}
